@@ -75,6 +75,12 @@ func VH_C06_call_lifecycle() {
 	if finishFirst {
 		finish()
 		vAssert(vIsDone(hold.ctx), "C06.life.finish-cancels-the-running-call")
+		if vNondetBool() {
+			// a second Finish for the same answer is a protocol error - reported, nothing left locked
+			ferr2 := c.handleFinish(c.bgctx, answerID(qid), relCaps)
+			vAssert(ferr2 != nil, "C08.life.second-finish-is-a-protocol-error")
+			vQuiescent(c, "C08.life.second-finish")
+		}
 		vAssert(c.answers[answerID(qid)] != nil, "C06.life.answer-entry-kept-until-return")
 	}
 	// the application returns
@@ -288,4 +294,49 @@ func VH_C07_bootstrap_answer_refs() {
 	cerr := c.Close()
 	vAssert(cerr == nil, "C07.boot.close-ok")
 	vAssert(boot.shutdowns == 1, "C07.boot.released-exactly-once-at-close")
+}
+
+// Close while a shutdown started by the receive loop is still in progress (it waits for a running
+// call): Close waits for it without holding anything the shutdown or the returning call needs; when
+// the call returns both complete.
+func VH_C09_close_during_shutdown() {
+	t := &vTransport{}
+	c := vNewConn(t, nil)
+	hold := &vHoldHook{}
+	vAssume(c.exportID.next() == 0)
+	c.exports = []*expent{{client: capnp.NewClient(hold), wireRefs: 1}}
+	m := vRecvMsg()
+	call, err := m.NewCall()
+	vAssume(err == nil)
+	call.SetQuestionId(1)
+	tgt, err := call.NewTarget()
+	vAssume(err == nil)
+	tgt.SetImportedCap(0)
+	pl, err := call.NewParams()
+	vAssume(err == nil)
+	args, err := capnp.NewStruct(pl.Segment(), capnp.ObjectSize{DataSize: 8})
+	vAssume(err == nil && pl.SetContent(args.ToPtr()) == nil)
+	vAssume(c.handleCall(c.bgctx, call, func() {}) == nil && hold.got)
+	done1, done2 := false, false
+	var err2 error
+	// the receive loop hit an error and shuts the connection down (as Conn.receive does)
+	go func() {
+		c.mu.Lock()
+		_ = c.shutdown(fail("receive error"))
+		done1 = true
+	}()
+	vSettle() // the shutdown has cancelled the call and waits for it
+	vAssert(!done1 && vIsDone(hold.ctx), "C09.close2.shutdown-waits-for-the-running-call")
+	go func() { err2 = c.Close(); done2 = true }()
+	vSettle() // Close finds the shutdown in progress and waits for it
+	vAssert(!done2, "C09.close2.close-waits-for-the-shutdown-in-progress")
+	// the application notices the cancellation and returns
+	hold.r.ReleaseArgs()
+	hold.r.Returner.Return(vFault{})
+	vSettle()
+	vReach("returned")
+	vAssert(done1 && done2, "C09.close2.shutdown-and-close-complete")
+	vAssert(err2 == nil, "C09.close2.close-reports-success")
+	vQuiescent(c, "C09.close2")
+	vAssert(t.closes == 1, "C09.close2.transport-closed-once")
 }
